@@ -200,3 +200,47 @@ func vhC10_concvia_publish()  { vC10Conc(vsPublish, true) }
 func vhC10_concvia_behavior() { vC10Conc(vsBehavior, true) }
 func vhC10_concvia_replay()   { vC10Conc(vsReplay, true) }
 func vhC10_concvia_async()    { vC10Conc(vsAsync, true) }
+
+// C10 (unicast, concurrent subscription): values queued before any subscriber, then one thread
+// subscribes while another keeps producing.  Whatever the interleaving, the single subscriber
+// receives the queued values first, then the live ones, each exactly once and in emission order
+// (one producer: emission order is total), and no callbacks overlap.
+func vC10UnicastSub(q, n int) {
+	subj := NewUnicastSubject[int64](8)
+	for i := 0; i < q; i++ {
+		subj.NextWithContext(context.Background(), int64(10+i))
+	}
+	rec := &vRecorder{name: "u", yield: true, quiet: true}
+	done := vChoice("done", 2) == 1
+	vGo(func() { subj.SubscribeWithContext(context.Background(), vObs(rec, vFlatInt)) })
+	vGo(func() {
+		for i := 0; i < n; i++ {
+			subj.NextWithContext(context.Background(), int64(10+q+i))
+		}
+		if done {
+			subj.CompleteWithContext(context.Background())
+		}
+	})
+	vQuiesce()
+	vAssert(!rec.overlap, "unicast: callbacks of one observer overlapped")
+	vCheckGrammar("unicast", rec)
+	if done && rec.nexts() == 0 {
+		// the subscriber arrived after the completion: the sequential definition (vhC10_seq_unicast,
+		// a listed finding) gives it the unconsumed backlog; kept apart from a loss during production
+		vAssert(false, "unicast: subscriber arriving after termination received a different number of notifications than the definition prescribes")
+	}
+	vAssert(rec.nexts() == q+n, "unicast: a queued or live value was lost or duplicated when the subscriber arrived during production")
+	k := 0
+	for _, e := range rec.evs {
+		if e.kind == vkNext {
+			vAssert(e.vals[0] == int64(10+k), "unicast: the subscriber did not receive the values in emission order (queued values first)")
+			k++
+		}
+	}
+	if done {
+		vAssert(rec.terminals() == 1, "unicast: the completion was not delivered")
+	}
+	vReach("end")
+}
+
+func vhC10_concsub_unicast_2x2() { vC10UnicastSub(2, 2) }
